@@ -75,7 +75,7 @@ fn base_repo(n: usize, data_pack: u32, tree_pack: u32) -> (Env, BTreeMap<String,
     for v in 0..n {
         let t = source(v);
         let repo = env.open_ids().expect("open");
-        _ = backup_with(&repo, &MemSource::new("r", t.clone()), &format!("s{v}"), T0 + 1000 + v as i64, &BackupOptions::default()).expect("backup");
+        _ = backup_with(&repo, &MemSource::new("r", t.clone()), &format!("s{v}"), T0 + 1000 + v as i64, &vkit::rep::bopts()).expect("backup");
         _ = allowed.insert(format!("s{v}"), vec![model_tree("r", &t)]);
     }
     (env, allowed)
@@ -110,7 +110,7 @@ pub fn scenarios() -> Vec<Scenario> {
                 Box::new(move |bes, gate| {
                     let repo = es(open_with(&bes)?.to_indexed_ids())?;
                     gate.set_enabled(true);
-                    es(backup_with(&repo, &MemSource::new("r", t2), "s2", T0 + 1002, &BackupOptions::default()))?;
+                    es(backup_with(&repo, &MemSource::new("r", t2), "s2", T0 + 1002, &vkit::rep::bopts()))?;
                     Ok("ok".into())
                 })
             }),
@@ -128,7 +128,7 @@ pub fn scenarios() -> Vec<Scenario> {
         _ = dst.init_with(cfg).expect("init");
         let t0 = source(0);
         let repo = dst.open_ids().expect("open");
-        _ = backup_with(&repo, &MemSource::new("r", t0.clone()), "d0", T0 + 900, &BackupOptions::default()).expect("backup");
+        _ = backup_with(&repo, &MemSource::new("r", t0.clone()), "d0", T0 + 900, &vkit::rep::bopts()).expect("backup");
         let mut allowed = BTreeMap::new();
         _ = allowed.insert("d0".to_string(), vec![model_tree("r", &t0)]);
         _ = allowed.insert("s1".to_string(), src_allowed["s1"].clone());
